@@ -63,6 +63,7 @@ selfc := mut any 0;
 selfc = selfc;
 wr := () -> int { c0 = 100; return 1 };
 it := [10, 20, 30, 40, 50, 60]~;
+it2 := [1, 2]~;
 rdint := (x: mut int) -> int { return *x };
 addto := (x: mut int, k: int) -> int { return x += k };
 ps := mut struct{x: int, y: int} struct{x := 1, y := 2};
@@ -177,6 +178,12 @@ pub const VALID: &[(&str, Option<i64>)] = &[
     ("{ hi := 9223372036854775807; c := mut hi; d := *c * 2; c *= 2; if *c == d { 1 } else { 0 } }", Some(1)),
     ("{ lo := 0 - 9223372036854775807 - 1; c := mut lo; d := *c * (0 - 1); c *= 0 - 1; if *c == d { 1 } else { 0 } }", Some(1)),
     ("{ c := mut 1; d := *c << 63; c <<= 63; e := *c >> 63; c >>= 63; if *c == e { if d < 0 { 1 } else { 2 } } else { 0 } }", Some(1)),
+    // assignment binds weaker than every other operator
+    ("{ c := mut false; r := (c = false || true); x := if r { 2 } else { 0 }; y := if *c { 1 } else { 0 }; x + y }", Some(3)),
+    ("{ c := mut 0; r := (c = 1 + 2 * 3); r * 100 + *c }", Some(707)),
+    ("{ c := mut false; r := (c = 1 < 2 && 3 > 2); x := if r { 2 } else { 0 }; y := if *c { 1 } else { 0 }; x + y }", Some(3)),
+    ("{ c := mut 1; r := (c += 2 << 1 | 1); r * 100 + *c }", Some(606)),
+    ("{ c := mut 0; d := mut 0; r := (c = d = 4 + 1); r * 100 + *c * 10 + *d }", Some(555)),
     ("ps = struct{x := 5, y := 6}", None),
     ("pt = (2, \"t\")", None),
     ("pu = [\"a\", 2]", None),
@@ -277,6 +284,7 @@ impl Op {
             OpKind::Show => format!("std.convert.to_string({p})"),
             OpKind::SameCell(c2, p2) => format!("{p} == {}", path_src(*c2, *p2)),
             OpKind::BumpViaRhs => format!("{p} += wr()"),
+            OpKind::Pull if self.path == 1 => "it2()".to_string(),
             OpKind::Pull => "it()".to_string(),
             OpKind::MkFresh(v) => match v % 12 {
                 0 => "{ x := mk(); y := mk(); x += 1; (*x, *y, x == y) }".to_string(),
@@ -541,13 +549,16 @@ fn show_text(kind: Kind, v: &Val) -> Option<String> {
 pub struct Model {
     pub heap: Vec<Val>,
     pub iter_pos: usize,
+    /// position of the two-element iterator `it2` (pulls with path 1)
+    pub iter2_pos: usize,
 }
 
 pub const ITER_ITEMS: [i64; 6] = [10, 20, 30, 40, 50, 60];
+pub const ITER2_ITEMS: [i64; 2] = [1, 2];
 
 impl Model {
     pub fn new() -> Self {
-        Model { heap: init_heap(), iter_pos: 0 }
+        Model { heap: init_heap(), iter_pos: 0, iter2_pos: 0 }
     }
 
     /// the heap index an (cell, path) pair denotes right now
@@ -597,6 +608,15 @@ impl Model {
             OpKind::AddViaParam(k) => {
                 let r = compound("+", &self.heap[target], &Val::Int(*k)).unwrap();
                 self.heap[target] = r.clone();
+                Expect::Value(r)
+            }
+            OpKind::Pull if op.path == 1 => {
+                let r = if self.iter2_pos < ITER2_ITEMS.len() {
+                    Val::Arr(vec![Val::Bool(true), Val::Int(ITER2_ITEMS[self.iter2_pos])])
+                } else {
+                    Val::Arr(vec![Val::Bool(false), Val::Int(0)])
+                };
+                self.iter2_pos += 1;
                 Expect::Value(r)
             }
             OpKind::Pull => {
@@ -682,6 +702,8 @@ pub struct GenCfg {
     pub allow_show: bool,
     pub allow_self: bool,
     pub allow_pull: bool,
+    /// only pulls from the two-element iterator `it2`
+    pub pull_heavy: bool,
 }
 
 pub fn gen_op(rng: &mut Rng, cfg: &GenCfg, unique: &mut i64) -> Op {
@@ -691,8 +713,12 @@ pub fn gen_op(rng: &mut Rng, cfg: &GenCfg, unique: &mut i64) -> Op {
     };
     loop {
         let roll = rng.below(100);
+        if cfg.pull_heavy {
+            // every thread hammers the two-element iterator
+            return Op { cell: 0, path: 1, kind: OpKind::Pull };
+        }
         if roll < 4 && cfg.allow_pull {
-            return Op { cell: 0, path: 0, kind: OpKind::Pull };
+            return Op { cell: 0, path: if rng.chance(1, 3) { 1 } else { 0 }, kind: OpKind::Pull };
         }
         if roll < 9 && cfg.allow_self {
             return Op {
@@ -898,6 +924,15 @@ pub fn gen_op(rng: &mut Rng, cfg: &GenCfg, unique: &mut i64) -> Op {
 
 /// Assignments the checker must refuse: each would let a value outside the declared content type
 /// into a cell (directly, or through a `mut` subtyping hole).
+/// Every compound operator on every kind of cell with every kind of operand: whatever the checker
+/// accepts is executed and must neither panic nor leave a value outside the cell's type.
+pub fn matrix_attack(rng: &mut Rng) -> String {
+    const CELLS_: [&str; 9] = ["c0", "c1", "c2", "c3", "c4", "c5", "c6", "m1", "cl"];
+    const OPS: [&str; 11] = ["+", "-", "*", "/", "%", "**", "<<", ">>", "&", "|", "^"];
+    const OPERANDS: [&str; 10] = ["2", "0", "-1", "2.5", "0.0", "true", "\"s\"", "[1]", "[2.5]", "()"];
+    format!("{} {}= {}", CELLS_[rng.below(CELLS_.len())], OPS[rng.below(OPS.len())], OPERANDS[rng.below(OPERANDS.len())])
+}
+
 pub const ATTACKS: &[&str] = &[
     // the VALUE of a compound assignment (typed as the cell's content) stored into a narrower cell
     "{ cw := mut [int|float] [1.5]; c4 = (cw += [1]); 0 }",
